@@ -11,6 +11,8 @@
 (*           segment (a later decode must not change an earlier message)       *)
 (*   trunc   the recorded byte stream cut at k, decoded by a fresh decoder     *)
 (*   corrupt one byte of the recorded stream changed, decoded likewise         *)
+(*   report  transfer status (codecsim -report): reports to the sender's raft   *)
+(*           against what the receiver got, see ReportClass                    *)
 (*   scenario / cut / deliver  stream level (codecsim -conn): a real           *)
 (*           streamWriter and a real streamReader over several connections;    *)
 (*           `cut` = the connection ends after k bytes (ZCodec Truncate),      *)
@@ -138,6 +140,33 @@ OnDeliver ==
        /\ UNCHANGED <<cvars, sentd, ends, bad, gw>>
   ELSE Note(<<"deliver", "duplicate-or-out-of-order", E.seq>>)
 
+\* ---- transfer status: what the sender's raft is told against what the receiver got
+\* (codecsim -report).  kind: "snap" (snapshotSender -> snapshotHandler), "pipe-snap" /
+\* "pipe-app" (pipeline -> pipelineHandler with MsgSnap / MsgApp).  A transfer is delivered
+\* when the receiver's raft got the message that was sent and (snapshot) the saver took the
+\* whole body.  Success may be reported only for a delivered transfer; an undelivered one is
+\* always reported as failure; a snapshot transfer gets exactly one ReportSnapshot (a lost
+\* answer after delivery may be reported as failure: the leader then sends again);
+\* ReportUnreachable never accompanies success and comes at most once; an append through
+\* the pipeline gets no ReportSnapshot, and ReportUnreachable exactly when it is not known to
+\* be delivered; an undisturbed transfer succeeds.
+ReportClass ==
+  LET delivered == E.processed /\ E.saved /\ E.recvdig = E.sentdig
+      snapk     == E.kind \in {"snap", "pipe-snap"} IN
+  IF E.processed /\ E.recvdig # E.sentdig THEN "different-message"
+  ELSE IF snapk /\ E.finish + E.failure = 0 THEN "no-report"
+  ELSE IF snapk /\ E.finish + E.failure > 1 THEN "more-than-one-report"
+  ELSE IF E.finish >= 1 /\ ~delivered THEN "finish-without-delivery"
+  ELSE IF ~snapk /\ E.finish + E.failure > 0 THEN "snapshot-report-for-append"
+  ELSE IF ~snapk /\ ~delivered /\ E.unreachable # 1 THEN "failure-not-reported"
+  ELSE IF E.finish >= 1 /\ E.unreachable > 0 THEN "unreachable-with-success"
+  ELSE IF E.unreachable > 1 THEN "unreachable-twice"
+  ELSE IF E.fault = "none" /\ (~delivered \/ E.unreachable > 0 \/ (snapk /\ E.finish # 1))
+       THEN "undisturbed-transfer-failed"
+  ELSE "ok"
+OnReport == IF ReportClass = "ok" THEN Same
+            ELSE Note(<<"report", ReportClass, E.kind, E.fault>>)
+
 TNext ==
   /\ l <= Len(Trace)
   /\ l' = l + 1
@@ -157,6 +186,7 @@ TNext ==
             [] E.ev = "enc"     -> OnEnc
             [] E.ev = "dec"     -> OnDec
             [] E.ev = "cut"     -> OnCut
+            [] E.ev = "report"  -> OnReport
             [] OTHER            -> Mismatch(<<E.ev, "no-such-action", "">>)
 
 TSpec == TInit /\ [][TNext]_tvars
